@@ -1,0 +1,30 @@
+//go:build verif
+
+package gtab
+
+// VerifPending returns the number of nested-lookup frames still on the
+// context's stack.  Runtime monitors check that it is zero between calls to
+// Apply.
+func (ctx *Context) VerifPending() int {
+	return len(ctx.stack)
+}
+
+// VerifSubtableSizes returns the size a subtable declares for itself and the
+// number of bytes it actually emits.
+func VerifSubtableSizes(s Subtable) (declared, emitted int) {
+	return s.encodeLen(), len(s.encode())
+}
+
+// VerifTagTables returns copies of the OpenType script and language tag
+// tables (OpenType tag -> BCP 47 subtag).
+func VerifTagTables() (scripts, languages map[string]string) {
+	scripts = make(map[string]string, len(scriptBcp47))
+	for k, v := range scriptBcp47 {
+		scripts[string(k)] = v
+	}
+	languages = make(map[string]string, len(langBcp47))
+	for k, v := range langBcp47 {
+		languages[string(k)] = v
+	}
+	return scripts, languages
+}
